@@ -6,11 +6,14 @@ import (
 	"go/token"
 	"go/types"
 	"math/big"
+	"regexp"
 	"sort"
 	"strings"
 
 	"golang.org/x/tools/go/ssa"
 )
+
+var ssaTemp = regexp.MustCompile(`\bt[0-9]+\b`)
 
 type toolErr string
 
@@ -204,6 +207,7 @@ func (x *Exec) topKeyShort() string { return ShortKey(x.topKey) }
 // does not move when unrelated code is edited.
 func (x *Exec) safetyName(kind string, fr *Frame, instr ssa.Instruction, what string) string {
 	what = strings.Join(strings.Fields(what), "")
+	what = ssaTemp.ReplaceAllString(what, "t") // SSA register numbers are not stable under edits
 	if len(what) > 48 {
 		what = what[:48]
 	}
